@@ -316,3 +316,25 @@ out = os.path.join(ROOT, "harness/overlay/middleware/edns/zz_verif_c06_test.go")
 os.makedirs(os.path.dirname(out), exist_ok=True)
 open(out, "w").write(head + shared + tail)
 print("wrote", out)
+
+# ---- third copy: package middleware/cache (the real cache as the downstream of the edns layer) ----
+head_cache = head.replace("package edns", "package cache").replace(
+    '\t"github.com/semihalev/sdns/middleware"\n)', '\t"github.com/semihalev/sdns/middleware"\n\t"github.com/semihalev/sdns/middleware/edns"\n)')
+head_cache = head_cache[:head_cache.index("// C06 driver")] + """// C06 driver (package middleware/cache): the REAL cache as what is downstream of the edns layer.
+// Cache states (exact entries, negative entries, alias chains held entirely in the cache) are
+// primed through the store; generated queries enter a Chain [edns, recorder, cache, miss-marker]
+// wire-born (Request.ParseWire + ResetWire) or decoded, on a transport with the wire lease.  The
+// recorder sits where the edns writer is handed the cache's product: a message (WriteMsg) or a
+// packed body with its WireInfo (WriteWire / CommitWire).  Observation = the octets the
+// transport sent.
+//
+// GENERATED by props/C06/mk_edns_driver.py: shared helpers from the server driver + the tail in
+// props/C06/cache_driver_tail.go.txt — edit there.
+
+""" + head_cache[head_cache.index("import ("):]
+tail_cache = open(os.path.join(ROOT, "props/C06/cache_driver_tail.go.txt")).read()
+out = os.path.join(ROOT, "harness/overlay/middleware/cache/zz_verif_c06_test.go")
+os.makedirs(os.path.dirname(out), exist_ok=True)
+open(out, "w").write(head_cache + shared + tail_cache)
+print("wrote", out)
+
